@@ -703,3 +703,204 @@ Proof.
     + repeat constructor.
     + simpl. unfold with_accts; simpl. rewrite alter_insert. rewrite Ab, with_bal_undo. reflexivity.
 Qed.
+
+Lemma getbalance_opt a x : WO a ->
+  exists a', astep_opt a (GetBalance x) = Some (OZ (match look a x with Some o => o_bal o | None => 0 end), a').
+Proof.
+  intros HW. simpl. unfold read_obj. destruct (get_obj_spec a x HW) as (l & m & Hg & _). rewrite Hg. simpl. eauto.
+Qed.
+
+Lemma sim_SubBalance a s x v : Inv a s -> pre_violated a (SubBalance x v) = false -> simo a s (SubBalance x v).
+Proof.
+  intros HI Hpre. destruct (gn_rel a s x HI) as (a1 & o & new & ac & Hg & HW1 & HJ1 & Hl1 & Hoth & He1 & Hf1 & Har & Hgn & Hcase).
+  unfold simo. simpl. rewrite Hg. simpl. unfold upd_acct. rewrite Hgn.
+  pose proof Har as (Ab & _).
+  destruct (v =? 0) eqn:Ev.
+  - apply Z.eqb_eq in Ev. subst v. rewrite Z.sub_0_r, with_bal_same.
+    eexists _, _, _. split; [reflexivity|]. split; [reflexivity|].
+    eapply (fin_rel a s x a1 a1 new [] ac ac o); eauto.
+    + intros y. destruct (decide (x = y)) as [<-|]; [exact Hl1|reflexivity].
+    + rewrite app_nil_r. reflexivity.
+    + repeat split.
+  - assert (o_bal o - v <? 0 = false) as Hnn.
+    { unfold pre_violated in Hpre. destruct (getbalance_opt a x (i_wo _ _ HI)) as (a' & Hgb). rewrite Hgb in Hpre.
+      apply orb_false_elim in Hpre. destruct Hpre as [Hlt _]. apply Z.ltb_ge in Hlt. apply Z.ltb_ge.
+      destruct Hcase as [[_ Hac]|(_ & Hac & Hld)].
+      - pose proof (proj1 (i_crel _ _ HI) x) as Hx. rewrite Hac in Hx. unfold orel in Hx.
+        destruct (look a x) as [o0|]; [|done]. destruct Hx as (Hb0 & _). lia.
+      - pose proof (proj1 (i_crel _ _ HI) x) as Hx. rewrite Hac in Hx. unfold orel in Hx.
+        destruct (look a x) as [o0|]; [done|]. unfold get_or_new in Hgn. rewrite Hac in Hgn. subst ac. simpl in Ab. lia. }
+    rewrite Hnn. unfold so_set_balance.
+    destruct (js_spec a1 (EBalance x (o_bal o)) x (set_bal o (o_bal o - v)) HW1 HJ1) as (a2 & a' & Hj & Hs & HW' & HJ' & Hl' & He' & Hf').
+    rewrite Hj. simpl. rewrite Hs. simpl. eexists _, _, _. split; [reflexivity|]. split; [reflexivity|].
+    eapply (fin_rel a s x a1 a' new [EBalance x (o_bal o)] ac); eauto.
+    + rewrite <- Ab. apply arel_bal. exact Har.
+    + repeat constructor.
+    + simpl. unfold with_accts; simpl. rewrite alter_insert. rewrite Ab, with_bal_undo. reflexivity.
+Qed.
+
+Lemma sim_SetNonce a s x n : Inv a s -> simo a s (SetNonce x n).
+Proof.
+  intros HI. destruct (gn_rel a s x HI) as (a1 & o & new & ac & Hg & HW1 & HJ1 & Hl1 & Hoth & He1 & Hf1 & Har & Hgn & Hcase).
+  unfold simo. simpl. rewrite Hg. simpl. unfold upd_acct. rewrite Hgn.
+  pose proof Har as (_ & An & _).
+  destruct (js_spec a1 (ENonce x (o_nonce o)) x (set_nonce o n) HW1 HJ1) as (a2 & a' & Hj & Hs & HW' & HJ' & Hl' & He' & Hf').
+  rewrite Hj. simpl. rewrite Hs. simpl. eexists _, _, _. split; [reflexivity|]. split; [reflexivity|].
+  eapply (fin_rel a s x a1 a' new [ENonce x (o_nonce o)] ac); eauto.
+  - apply arel_nonce. exact Har.
+  - repeat constructor.
+  - simpl. unfold with_accts; simpl. rewrite alter_insert. rewrite An, with_nonce_undo. reflexivity.
+Qed.
+
+Lemma with_refund_undo c r : with_refund (with_refund c r) (refund c) = c.
+Proof. destruct c; reflexivity. Qed.
+
+Lemma inv_refund a a1 s r : Inv a s ->
+  a1 = w_entries a (a_entries a ++ [ERefund (a_refund a)]) ->
+  Inv (w_refund a1 r) (with_cur s (with_refund (cur s) r)).
+Proof.
+  intros HI ->. split; simpl.
+  - exact (i_wo _ _ HI).
+  - exact (i_jok _ _ HI).
+  - exact (i_nr _ _ HI).
+  - split; [exact (proj1 (i_crel _ _ HI))|reflexivity].
+  - exact (i_id _ _ HI).
+  - apply (SR_extend a _ s _ [ERefund (a_refund a)]); [reflexivity|reflexivity| |exact (i_sr _ _ HI)].
+    simpl. unfold sundo_list; simpl. rewrite (proj2 (i_crel _ _ HI)). apply with_refund_undo.
+  - apply Forall_app. split; [exact (i_ent _ _ HI)|repeat constructor].
+Qed.
+
+Lemma sim_AddRefund a s g : Inv a s -> sim a s (AddRefund g).
+Proof.
+  intros HI. apply simo_sim. unfold simo. simpl. unfold j_append; simpl.
+  eexists _, _, _. split; [reflexivity|]. split; [reflexivity|].
+  rewrite (proj2 (i_crel _ _ HI)). apply (inv_refund a _ s _ HI). rewrite (proj2 (i_crel _ _ HI)). reflexivity.
+Qed.
+Lemma sim_SubRefund a s g : Inv a s -> sim a s (SubRefund g).
+Proof.
+  intros HI. unfold sim, astep. simpl. unfold j_append; simpl. rewrite (proj2 (i_crel _ _ HI)).
+  destruct (refund (cur s) <? g).
+  - exists OPanic, a, s. done.
+  - eexists _, _, _. split; [reflexivity|]. split; [reflexivity|].
+    apply (inv_refund a _ s _ HI). rewrite (proj2 (i_crel _ _ HI)). reflexivity.
+Qed.
+Lemma sim_GetRefund a s : Inv a s -> sim a s GetRefund.
+Proof.
+  intros HI. exists (OZ (a_refund a)), a, s. split; [reflexivity|]. split; [|exact HI].
+  simpl. rewrite (proj2 (i_crel _ _ HI)). reflexivity.
+Qed.
+
+(* storage *)
+Lemma sim_read_slot a s x k (committed : bool) : Inv a s ->
+  simo a s (if committed then GetCommittedState x k else GetState x k).
+Proof.
+  intros HI. unfold simo.
+  destruct (get_obj_spec a x (i_wo _ _ HI)) as (l & m & Hg & HW1 & Hl1).
+  set (a1 := w_objs a l m) in *.
+  pose proof (proj1 (i_crel _ _ HI) x) as Hx. unfold orel in Hx.
+  assert (exists r a' , (if committed then astep_opt a (GetCommittedState x k) else astep_opt a (GetState x k)) = Some (r, a') /\
+            r = OZ (match accts (cur s) !! x with Some c => if committed then sget (comm c) k else sget (stor c) k | None => 0 end) /\
+            Inv a' s) as (r & a' & H1 & H2 & H3).
+  { destruct (look a x) as [o|] eqn:Hlx.
+    - destruct (accts (cur s) !! x) as [ac|] eqn:Hac; [|done].
+      pose proof Hx as (_ & _ & _ & _ & Hst & Hcm & HD & HO & _).
+      assert (exists ol om v, (if committed then obj_committed (a_pers a) x o k else obj_getstate (a_pers a) x o k) =
+                Some (v, set_origin o ol om) /\ OW (a_pers a) x (set_origin o ol om) /\
+                v = if committed then sget (comm ac) k else sget (stor ac) k) as (ol & om & v & Hgs & HO' & Hv).
+      { destruct committed.
+        - destruct (obj_committed_spec (a_pers a) x o k HO) as (ol & om & E1 & E2). exists ol, om, (pslot (a_pers a) x k). split; [exact E1|]. split; [exact E2|apply Hcm].
+        - destruct (obj_getstate_spec (a_pers a) x o k HD HO) as (ol & om & E1 & E2). exists ol, om, (oget (a_pers a) x o k). split; [exact E1|]. split; [exact E2|apply Hst]. }
+      destruct (so_spec a1 x (set_origin o ol om) HW1 (i_jok _ _ HI)) as (a' & Hs & HW' & HJ' & Hl' & He' & (Hp' & Hr' & Hn' & Hf')).
+      exists (OZ v), a'. split; [|split; [subst v; reflexivity|]].
+      + destruct committed; simpl; rewrite Hg; simpl; rewrite Hgs; simpl; rewrite Hs; reflexivity.
+      + apply (inv_same_spec a a' s HI HW' HJ'); try assumption.
+        intros y. rewrite Hl'. destruct (decide (x = y)) as [<-|].
+        * rewrite Hac. apply arel_set_origin; assumption.
+        * rewrite Hl1. apply (proj1 (i_crel _ _ HI)).
+    - destruct (accts (cur s) !! x) as [ac|] eqn:Hac; [done|].
+      exists (OZ 0), a1. split; [destruct committed; simpl; rewrite Hg; reflexivity|]. split; [reflexivity|].
+      apply (inv_same_spec a a1 s HI HW1 (i_jok _ _ HI)); try reflexivity.
+      intros y. rewrite Hl1. apply (proj1 (i_crel _ _ HI)). }
+  exists r, a', s. split; [destruct committed; exact H1|]. split; [|exact H3].
+  subst r. destruct committed; reflexivity.
+Qed.
+
+Lemma with_stor_undo c m : with_stor (with_stor c m) (stor c) = c.
+Proof. destruct c; reflexivity. Qed.
+Lemma with_stor_same c : with_stor c (stor c) = c.
+Proof. destruct c; reflexivity. Qed.
+
+Lemma sim_SetState a s x k v : Inv a s -> simo a s (SetState x k v).
+Proof.
+  intros HI. destruct (gn_rel a s x HI) as (a1 & o & new & ac & Hg & HW1 & HJ1 & Hl1 & Hoth & He1 & Hf1 & Har & Hgn & Hcase).
+  unfold simo. simpl. rewrite Hg. simpl. unfold upd_acct. rewrite Hgn.
+  pose proof Har as (_ & _ & _ & _ & Hst & Hcm & HD & HO & Hcan).
+  destruct (obj_getstate_spec (a_pers a) x o k HD HO) as (ol & om & Hgs & HO1). rewrite Hgs. simpl.
+  set (o1 := set_origin o ol om) in *.
+  assert (arel (a_pers a) x o1 ac) as Har1 by (apply arel_set_origin; assumption).
+  destruct (so_spec a1 x o1 HW1 HJ1) as (a2 & Hs2 & HW2 & HJ2 & Hl2 & He2 & Hf2). rewrite Hs2. simpl.
+  destruct (oget (a_pers a) x o k =? v) eqn:Ev.
+  - apply Z.eqb_eq in Ev. eexists _, _, _. split; [reflexivity|]. split; [reflexivity|].
+    assert (cset k v (stor ac) = stor ac) as ->. { rewrite <- Ev, Hst. apply cset_same. exact Hcan. }
+    rewrite with_stor_same.
+    eapply (fin_rel a s x a1 a2 new [] ac ac o1); eauto.
+    + rewrite app_nil_r. exact He2.
+  - destruct (j_append_spec a2 (EStorage x k (oget (a_pers a) x o k)) HJ2) as (dl & dm & Hj & HJ3). rewrite Hj. simpl.
+    set (a3 := w_dirties (w_entries a2 (a_entries a2 ++ [EStorage x k (oget (a_pers a) x o k)])) dl dm) in *.
+    destruct (obj_setstate_spec (a_pers a) x o1 k v HD) as (dl2 & dm2 & Hss & HD2 & Hget2). rewrite Hss. simpl.
+    set (o2 := set_dirty o1 dl2 dm2) in *.
+    assert (WO a3) as HW3 by exact HW2.
+    destruct (so_spec a3 x o2 HW3 HJ3) as (a4 & Hs4 & HW4 & HJ4 & Hl4 & He4 & Hf4). rewrite Hs4. simpl.
+    eexists _, _, _. split; [reflexivity|]. split; [reflexivity|].
+    destruct Hf2 as (Hp2 & Hr2 & Hn2 & Hrf2). destruct Hf4 as (Hp4 & Hr4 & Hn4 & Hrf4).
+    eapply (fin_rel a s x a1 a4 new [EStorage x k (oget (a_pers a) x o k)] ac _ o2); eauto.
+    + intros y. rewrite Hl4. destruct (decide (x = y)) as [<-|Hne]; [reflexivity|].
+      change (look a3 y) with (look a2 y). rewrite Hl2. rewrite decide_False by done. reflexivity.
+    + rewrite He4. simpl. rewrite He2. reflexivity.
+    + unfold a3 in *. simpl in *. repeat split; congruence.
+    + destruct Har1 as (A & B & C & D & E & F & G & H & I).
+      unfold arel. simpl. refine (conj A (conj B (conj C (conj D (conj _ (conj F (conj HD2 (conj H _)))))))).
+      * intros k'. rewrite Hget2. rewrite cset_get by exact I. destruct (decide (k = k')); [reflexivity|apply E].
+      * apply cset_canon. exact I.
+    + repeat constructor.
+    + simpl. unfold with_accts; simpl. rewrite alter_insert. simpl.
+      rewrite Hst. rewrite cset_undo by exact Hcan. rewrite with_stor_undo. reflexivity.
+Qed.
+
+Lemma sim_Suicide a s x : Inv a s -> simo a s (Suicide x).
+Proof.
+  intros HI. unfold simo. simpl.
+  destruct (get_obj_spec a x (i_wo _ _ HI)) as (l & m & Hg & HW1 & Hl1). rewrite Hg. simpl.
+  set (a1 := w_objs a l m) in *.
+  pose proof (proj1 (i_crel _ _ HI) x) as Hx. unfold orel in Hx.
+  destruct (look a x) as [o|] eqn:Hlx.
+  - destruct (accts (cur s) !! x) as [ac|] eqn:Hac; [|done].
+    pose proof Hx as (Ab & _ & _ & As & _).
+    destruct (js_spec a1 (ESuicide x (o_suic o) (o_bal o)) x (set_suic o true) HW1 (i_jok _ _ HI))
+      as (a2 & a3 & Hj & Hs & HW3 & HJ3 & Hl3 & He3 & Hf3).
+    rewrite Hj. simpl. rewrite Hs. simpl. unfold so_set_balance.
+    destruct (js_spec a3 (EBalance x (o_bal (set_suic o true))) x (set_bal (set_suic o true) 0) HW3 HJ3)
+      as (a4 & a5 & Hj5 & Hs5 & HW5 & HJ5 & Hl5 & He5 & Hf5).
+    rewrite Hj5. simpl. rewrite Hs5. simpl.
+    eexists _, _, _. split; [reflexivity|]. split; [reflexivity|].
+    destruct Hf3 as (Hp3 & Hr3 & Hn3 & Hrf3). destruct Hf5 as (Hp5 & Hr5 & Hn5 & Hrf5).
+    eapply (fin_rel a s x a1 a5 [] [ESuicide x (o_suic o) (o_bal o); EBalance x (o_bal o)] ac
+              (with_suic (with_bal ac 0) true) (set_bal (set_suic o true) 0) HI).
+    + intros y _. apply Hl1.
+    + simpl. rewrite app_nil_r. reflexivity.
+    + repeat split.
+    + left. done.
+    + exact HW5.
+    + exact HJ5.
+    + intros y. rewrite Hl5. destruct (decide (x = y)) as [<-|Hne]; [reflexivity|]. rewrite Hl3. rewrite decide_False by done. reflexivity.
+    + rewrite He5, He3. rewrite <- app_assoc. reflexivity.
+    + unfold same_frame. repeat split; congruence.
+    + apply (arel_bal _ _ _ _ 0 (arel_suic _ _ _ _ true Hx)).
+    + repeat constructor.
+    + simpl. unfold sundo_list; simpl. unfold with_accts; simpl. rewrite alter_insert. simpl. rewrite alter_insert. simpl.
+      f_equal. f_equal. destruct ac; simpl in *. subst. reflexivity.
+  - destruct (accts (cur s) !! x) as [ac|] eqn:Hac; [done|].
+    eexists _, _, _. split; [reflexivity|]. split; [reflexivity|].
+    apply (inv_same_spec a a1 s HI HW1 (i_jok _ _ HI)); try reflexivity.
+    intros y. rewrite Hl1. apply (proj1 (i_crel _ _ HI)).
+Qed.
